@@ -95,10 +95,19 @@ class Ctx:
             shutil.copy(os.path.join(REPO, "go.sum"), os.path.join(self.scratch, "go.sum"))
         return mod
 
-    def build_harness(self):
-        """Build the Go harness against the repository's current tree (hooks on)."""
+    def build_harness(self, extra=()):
+        """Build the Go harness against the repository's current tree (hooks on).
+        Only main.go, this property's files (cmd/vh/<prop>.go, <prop>_*.go) and
+        the named extra files are compiled, so that one property's harness (and
+        the repository hooks it needs) never affects another's."""
+        import glob
         self.vh = os.path.join(self.scratch, "vh")
-        p = run(["go", "build", "-modfile=" + self.gomod(), "-tags", "verif", "-o", self.vh, "./cmd/vh"],
+        d = os.path.join(HARNESS, "cmd", "vh")
+        lp = self.prop.lower()
+        files = [os.path.join(d, "main.go"), os.path.join(d, lp + ".go")] + \
+            sorted(glob.glob(os.path.join(d, lp + "_*.go"))) + [os.path.join(d, e) for e in extra]
+        files = [f for f in dict.fromkeys(files) if os.path.exists(f)]
+        p = run(["go", "build", "-modfile=" + self.gomod(), "-tags", "verif", "-o", self.vh] + files,
                 cwd=HARNESS, env=GOENV, timeout=900)
         ok = p.returncode == 0
         self.oblige("harness builds against the repository with -tags verif", ok, p.stdout[-2000:])
